@@ -4,6 +4,7 @@ mod c02;
 mod c03;
 mod c06;
 mod c08;
+mod c09;
 mod selftest;
 
 fn main() {
@@ -20,6 +21,7 @@ fn main() {
         "C03" => c03::run(tier),
         "C06" => c06::run(tier),
         "C08" => c08::run(tier),
+        "C09" => c09::run(tier),
         "load-probe" => c06::load_probe_child(&args[3]),
         other => {
             eprintln!("unknown sub-command {}", other);
